@@ -1355,6 +1355,12 @@ def decl_events(P, pu, fname, mk_rest, loop_limit=2, max_paths=6000):
     if fname not in pu.functions:
         raise AnalysisBroken('parse.c: %s vanished' % fname)
     opq = [f for f in DECL_PARSERS + DECL_OPAQUE if f != fname]
+    # a lookup of an EARLIER declaration (composite type of a redeclaration) is not part of the order of events judged here; functions
+    # that consult find_var while declaring (today: none but a redeclared incomplete array in global_variable) get its answer as an opaque value
+    if fname in ('global_variable',) and 'find_var' in pu.functions:
+        opq.append('find_var')
+        if 'is_variably_modified' in pu.functions:
+            opq.append('is_variably_modified')      # a predicate on the declared type: its answer, not its walk over the type, matters here
     tm = TokenModel(P, pu, [fname, 'consume_end'], extra_opaque=opq, globals_={'scope': lambda ctx: Obj('Scope', lazy=True, label='scope')}, loop_limit=loop_limit)
     it = tm.interp()
     parsers = set(f for f in opq if f in pu.functions and pu.params(f) and (pu.params(f)[0].type or '').replace(' ', '') == 'Token**')
@@ -1455,7 +1461,7 @@ def r038(P, rep):
              ('global_variable', lambda tm, ctx, rest: [tm.token('tok'), Obj('Type', lazy=True, label='basety'), Obj('VarAttr', lazy=True, label='attr')]),
              ('parse_typedef', lambda tm, ctx, rest: [tm.token('tok'), Obj('Type', lazy=True, label='basety')]))
     for fname, mk in specs:
-        it, paths = decl_events(P, pu, fname, mk)
+        it, paths = decl_events(P, pu, fname, mk, max_paths=40000)
         where = 'parse.c:%d' % pu.fn(fname).line
         n_d = 0
         for ctx, o, evs in paths:
